@@ -108,7 +108,11 @@ def main():
         },
         "engines": [
             {"name": "verif-pbt", "path": "/verif/harness/pbt", "serves_properties": sorted(CHECKS.keys()),
-             "kind_free_text": "proptest TestRunner driven from a binary: deterministic seeds derived from VERIF_SEED, sharded over 16 threads, recipes as cases, explicit reference-model oracle, shrinking to a JSON replay file"},
+             "kind_free_text": "proptest TestRunner driven from a binary: deterministic seeds derived from VERIF_SEED, sharded over 16 threads, recipes as cases, explicit reference-model oracle, shrinking to a JSON replay file; enumerated finite sub-domains; corpus replay through the byte-level entries"},
+            {"name": "verif-fuzz", "path": "/verif/harness/fuzz", "serves_properties": ["C04", "C05", "C08", "C09", "C13", "C18", "C19"],
+             "kind_free_text": "cargo-fuzz / libFuzzer targets (decode, serdes, expand, field) with the reference-model oracle inside the target; bounded campaigns in the thorough tier (tools/fuzz_campaign.sh), crash artifacts re-run through the plain binary"},
+            {"name": "tsan-pass", "path": "/verif/tools/tsan_pass.sh", "serves_properties": ["C20"],
+             "kind_free_text": "ThreadSanitizer build (-Zsanitizer=thread, -Zbuild-std) of the harness and the crate running a reduced C20 workload in the thorough tier"},
         ],
         "checks": checks,
         "not_applicable": na,
